@@ -57,7 +57,9 @@ class Tracker:
 
 
 def gen_history(rng: random.Random, nstruct=4, length=12, invalid_p=0.0, max_pins=3, scenario=None):
-    sizes = [rng.randint(1, max_pins) for _ in range(nstruct)]
+    sizes = [rng.randint(1, max_pins) if rng.random() > 0.12 else 0 for _ in range(nstruct)]
+    if nstruct >= 3 and rng.random() < 0.4:
+        sizes[rng.randrange(nstruct)] = 0
     if scenario == "hub":
         nstruct = max(nstruct, 3)
         sizes = [rng.randint(2, max(2, max_pins))] + [rng.randint(1, max_pins) for _ in range(nstruct - 1)]
@@ -203,7 +205,19 @@ def gen_history(rng: random.Random, nstruct=4, length=12, invalid_p=0.0, max_pin
                 nexpo[0] += 1
                 emit(["map", name, list(p)])
                 tr.mapped[name] = p
-        elif r < 0.85:
+        elif r < 0.83:
+            if rng.random() < 0.6:
+                # an empty model declared right before another structure, then prune
+                absent0 = [i for i in range(nstruct) if i not in tr.present and sizes[i] == 0 and i not in tr.dirty]
+                if absent0:
+                    do_add(rng.choice(absent0))
+                    others = [i for i in range(nstruct) if i not in tr.present and i not in tr.dirty]
+                    if others and rng.random() < 0.7:
+                        do_add(rng.choice(others))
+            emit(["prune"])
+            for i in [i for i in tr.present if sizes[i] == 0]:
+                tr.present.remove(i)
+        elif r < 0.87:
             emit(["raise"])
             for p in tr.free():
                 if p not in tr.mapped.values():
@@ -234,7 +248,10 @@ class Driver:
         if i not in self.sts:
             c = self.desc["comps"][i]
             n = c["n"]
-            m = lk.Model(pin_dic={Pin(pname(i, k)): k for k in range(n)}, Smatrix=netlib.j2m(c["S"]))
+            if n == 0:
+                m = lk.Model()
+            else:
+                m = lk.Model(pin_dic={Pin(pname(i, k)): k for k in range(n)}, Smatrix=netlib.j2m(c["S"]))
             self.models[i] = m
             st = Structure(model=m)
             self.sts[i] = st
@@ -271,6 +288,8 @@ class Driver:
                 self.sol.map_pins({op[1]: (self.structure(x[0]), self.pin(x))})
             elif op[0] == "raise":
                 self.sol.maps_all_pins()
+            elif op[0] == "prune":
+                self.sol.prune()
             elif op[0] == "solve":
                 mod = self.sol.solve()
             return True, mod
@@ -312,6 +331,8 @@ def op_lit(op):
         return f"MapPin {cnat(name_id(op[1]))} {spin(op[2])}"
     if op[0] == "raise":
         return "RaiseAll"
+    if op[0] == "prune":
+        return "Prune " + clist(cnat(i) for i in op[1])
     return "SolveOp"
 
 
@@ -344,6 +365,8 @@ def run_history(desc, by_name=False):
         full = list(op)
         if op[0] == "add":
             full = ["add", op[1], desc["comps"][op[1]]["n"]]
+        if op[0] == "prune":
+            full = ["prune", [i for i, c in enumerate(desc["comps"]) if c["n"] == 0]]
         ops.append(full)
     mats = clist("(%s, %s)" % (cnat(i), cmat(netlib.j2m(c["S"]).reshape(c["n"], c["n"]), cq))
                  for i, c in enumerate(desc["comps"]))
